@@ -80,6 +80,9 @@ def judge(case):
         line = pipeline + " ; vp_snap $?"
     else:
         line = pipeline
+    if case.get("bg_before"):
+        # a background job started earlier ends while the pipeline is still running
+        line = "vp_job BG %s @bg & ; " % case["bg_before"] + line
     r = run_cicada(sb, ["-c", line], timeout=25.0)
     recs = sb.records()
     res = {"line": line, "rc": r.rc, "n_records": len(recs), "stderr": r.err.decode("utf-8", "replace")[-300:]}
@@ -110,8 +113,8 @@ def judge(case):
         if x["name"] == "vp_snap":
             snap, snap_pos = x, pos
             continue
-        if not tag:
-            continue
+        if not tag or not tag[0][1:].isdigit():
+            continue          # (the earlier background job of the bg-overlap class is not a stage)
         i = int(tag[0][1:])
         if x["kind"] == "start":
             starts.setdefault(i, []).append((pos, x))
@@ -268,6 +271,17 @@ def gen_cases(tier, seed):
                         special = {"kind": "src", "n": payload, "seed": 5, "linger": None, "exit": 4}
                     st[pos] = special
                     cases.append(dict(mk(st), cls="lossy"))
+    # 4b. an earlier background job terminates while the foreground pipeline runs (its status change
+    #     reaches the foreground wait); the last stage finishes late
+    for _ in range(120 if thorough else 30):
+        n = rng.choice([1, 2, 3])
+        order = list(range(n))
+        st = clean_pipeline(n, rng.choice([0, 4096, 70000]), rng.randrange(1, 10 ** 6), order, step=120)
+        st[-1]["linger"] = 350
+        st[-1]["exit"] = rng.choice([7, 0, 3])
+        c = dict(mk(st), cls="bg-overlap")
+        c["bg_before"] = rng.choice(["0.05", "0.1", "0.2"])
+        cases.append(c)
     # 5. a non-last stage killed by a signal mid-pipeline (after it did its work)
     for _ in range(200 if thorough else 40):
         n = rng.choice([2, 3, 4])
